@@ -21,6 +21,7 @@ type Unit struct {
 	Patterns  []string `json:"patterns"`
 	Functions []string `json:"functions"`
 	Thorough  []string `json:"thorough_functions"`
+	Trusted   []string `json:"trusted"` // overrides the property-level list for this unit
 }
 
 type PropSpec struct {
@@ -144,7 +145,11 @@ func runUnits(ps *PropSpec, opts Options, overlay map[string][]byte) *runOutput 
 			out.EngineErrs = append(out.EngineErrs, fmt.Sprintf("load %s: %v", u.Dir, err))
 			continue
 		}
-		cs, files, err := loadContracts(P, ps.Trusted, overlay)
+		trusted := ps.Trusted
+		if len(u.Trusted) > 0 {
+			trusted = u.Trusted
+		}
+		cs, files, err := loadContracts(P, trusted, overlay)
 		if err != nil {
 			out.EngineErrs = append(out.EngineErrs, fmt.Sprintf("contracts: %v", err))
 			continue
